@@ -117,6 +117,16 @@ fn alphabet() -> Vec<Dev> {
             }
         }
     }
+    // a retired catch-all `#[strum(disabled, default)] Legacy(String)` declared first: it does not exist for the parser, neither
+    // as a second default nor as the catch-all
+    d.push(dev("retired #[strum(disabled, default)] Legacy(String) declared first", &["retired"], |s| {
+        let mut v = VariantSpec::unit("Legacy");
+        v.default = true;
+        v.disabled = true;
+        v.kind = Kind::Tuple(vec![FieldTy::Str]);
+        s.variants.insert(0, v);
+        true
+    }));
     // the keyword sits in a LATER #[strum(..)] attribute of the variant, with a foreign attribute in between
     d.push(dev("transparent variant last (tuple, String): #[strum(to_string = ..)] #[allow(..)] #[strum(transparent)]", &["transparent"], |s| {
         let mut v = VariantSpec::unit("Tt");
@@ -314,7 +324,7 @@ pub fn render(spec: &EnumSpec) -> String {
                 }
             }
         }
-        if v.default && v.to_string.is_none() {
+        if v.default && v.to_string.is_none() && !v.disabled {
             let t = match &v.kind {
                 Kind::Tuple(f) => f[0].clone(),
                 Kind::Named(f) => f[0].ty.clone(),
